@@ -18,12 +18,15 @@ THEOREMS = ['Fsic.C07.' + n for n in [
     'full_agree_false_at_tenth', 'evaluate_agree', 'fortran_loop_eq_python_loop', 'fortran_solveT_eq_python',
     'fortran_check_rows_aligned', 'fortran_solve_eq_fold', 'fortran_solve_eq_python_solveList',
     'fortran_solve_eq_python_solve', 'fortran_solve_frame', 'fortran_later_periods_untouched',
+    'evaluate_frame', 'offset_copy_frame', 'wrapper_returns_engine_block', 'wEvaluate_returns_engine_block',
     'error_codes_consistent']]
 RULE = ('programs from an own grammar (1-6 equations, shared variables, parameters {a}, errors <e>, lags/leads up to 3, '
+        'left-hand sides that carry a lag/lead of their own (H[1] = ..., R[-1] = ...), '
         'integer and decimal literals, + - * / ** unary minus parentheses exp log max min abs, long sums over dozens of '
         'variables that need continuation lines) plus a fixed list of designed programs (convergence exactly at tol, '
         'offset copies, each known defect); per program random finite data and a sample of the call lattice: '
-        '_evaluate(t), solve_t(t, min_iter, max_iter, tol, offset, failures, errors), solve(start, end, ...) with '
+        '_evaluate(t), solve_t(t, min_iter, max_iter, tol, offset, failures, errors), solve_period(label, ...), '
+        'solve(start, end, ...), always comparing the whole value matrix, with '
         'positive/negative/infeasible/out-of-range t; operation HISTORIES (2-5 steps on the same pair of instances: solve '
         'then solve with too few iterations / an out-of-span offset / failures ignore-then-raise, solve_t then solve, '
         'copy() between calls; full state compared after every step and every step tied to the model from the record '
@@ -159,6 +162,9 @@ def do_call(m, call):
                 return 'ok'
             if call['call'] == 'solve_t':
                 r = m.solve_t(call['t'], **kwargs_of(call['opts']))
+                return 'ret:T' if r else 'ret:F'
+            if call['call'] == 'solve_period':   # the span is range(n): the label of a period is its position
+                r = m.solve_period(call['t'], **kwargs_of(call['opts']))
                 return 'ret:T' if r else 'ret:F'
             labels, idx, flags = m.solve(start=call.get('start'), end=call.get('end'), **kwargs_of(call['opts']))
             if list(labels) != [m.span[i] for i in idx]:
@@ -340,7 +346,10 @@ def random_calls(rng, n, lags, leads, budget):
             t = spell(rng.choice(bad))
         else:
             t = rng.choice([n, -n - 1])
-        calls.append({'call': 'solve_t', 't': t, 'opts': o})
+        if rng.random() < 0.2:
+            calls.append({'call': 'solve_period', 't': t if rng.random() < 0.9 or t < 0 else n + 2, 'opts': o})
+        else:
+            calls.append({'call': 'solve_t', 't': t, 'opts': o})
     for _ in range(budget['solve']):
         o = random_opts(rng, lags)
         c = {'call': 'solve', 'opts': o}
@@ -381,6 +390,8 @@ def random_data(rng, names, n, style=None):
 
 def call_periods(call, n, lags, leads):
     """0-based positions the call addresses explicitly (None when t is outside the span)."""
+    if call['call'] == 'solve_period':
+        return [call['t']] if 0 <= call['t'] < n else None
     if call['call'] in ('evaluate', 'solve_t'):
         t = call['t']
         if not -n <= t < n:
@@ -423,6 +434,10 @@ def classify(prog, call, n, lags, leads, F, P, twin_fn):
         later = {p for p in periods if p > first}
         if same_control(F, P) and values_agree(mask_cols(F, later), mask_cols(P, later), libm, iterated):
             return ('solve-continues-after-offset-error', what)
+    if call['call'] == 'evaluate' and periods is None and F['tag'] == 'IndexError' and P['tag'] == 'IndexError':
+        # t outside the span: both raise IndexError, but the generated Python _evaluate has no up-front check, so the
+        # statements before the failing one have already stored (with `C[-1] = …` the store at t-1 is inside the span)
+        return ('infeasible-period-evaluate', what)
     # explicit infeasible period: the compiled module refuses with its own error code
     if periods is not None and any(not feasible(p, n, lags, leads) for p in periods):
         if call['call'] == 'evaluate' and F['tag'] == 'IndexError':
@@ -546,7 +561,8 @@ def model_payload(prog, symbols, n, data, call, check, record=None):
     names = endo + exo + par + err
     return {'endo': endo, 'exo': exo, 'par': par, 'err': err, 'check': check,
             # evaluation order = order of the endogenous *symbols* (first appearance in the script), as in both back-ends
-            'eqs': [{'lhs': eq['lhs'], 'rhs': eq['rhs']} for eq in sorted(prog['eqs'], key=lambda q: endo.index(q['lhs']))],
+            'eqs': [{'lhs': eq['lhs'], 'off': eq.get('off', 0), 'rhs': eq['rhs']}
+                    for eq in sorted(prog['eqs'], key=lambda q: endo.index(q['lhs']))],
             'lits': [{'text': k, 'r4': v[0], 'r8': v[1], 'm': v[2], 'e': v[3]} for k, v in sorted(lits.items())],
             'symlags': [int(s.lags) for s in sym], 'symleads': [int(s.leads) for s in sym],
             'n': n, 'vals': [data[x] for x in names], 'call': call,
@@ -661,7 +677,8 @@ def to_gs(e, env):
 def layout_scripts(prog, rng, names):
     """[(layout name, script text)] for the same equations under other layouts."""
     import gen_scripts as gs
-    gprog = gs.Program([gs.Equation(gs.Term('var', eq['lhs'], None), to_gs(eq['rhs'], prog['env'])) for eq in prog['eqs']])
+    gprog = gs.Program([gs.Equation(gs.Term('var', eq['lhs'], eq.get('off') or None), to_gs(eq['rhs'], prog['env']))
+                        for eq in prog['eqs']])
     out = []
     for name in names:
         if name == 'random':
@@ -698,7 +715,7 @@ def stray_lines(text):
         if cont:
             if not st.startswith('&'):
                 bad.append(line)
-        elif not re.match(r'solved_values\(\d+, index\)\s*=', st):
+        elif not re.match(r'solved_values\(\d+, index(?:[+-]\d+)?\)\s*=', st):
             bad.append(line)
         cont = st.endswith('&')
     return bad
@@ -762,6 +779,18 @@ def designed_programs():
     add('offset-error-in-solve', [{'lhs': 'A', 'rhs': B('add', B('mul', D('0.5'), V('A')), V('X'))}],
         calls=[{'call': 'solve', 'opts': mkopts(0, 50, 1e-8, off, 'ignore', e)}
                for off in (-1, 1) for e in ('raise', 'skip', 'ignore', 'replace')], data='uniform', n=6)
+    # indexed left-hand sides: the defined variable carries its own lead / lag, so a pass at t writes period t+1 / t-1.
+    # Every entry point, both spellings of t, the whole value matrix compared.
+    ix_calls = [{'call': 'evaluate', 't': t} for t in (1, 2, 4, -2, -5, 0, 5, -1)]
+    ix_calls += [{'call': c, 't': t, 'opts': mkopts(mi, ma, 1e-9, off, 'ignore', 'raise')}
+                 for c in ('solve_t', 'solve_period') for t in ((1, 3, -2, -4, 0) if c == 'solve_t' else (1, 2, 4, 0, 9))
+                 for mi, ma, off in ((0, 50, 0), (2, 3, 0), (0, 50, -1), (0, 50, 1))]
+    ix_calls += [{'call': 'solve', 'start': s_, 'end': e_, 'opts': mkopts(0, 50, 1e-9, off, f, 'raise')}
+                 for s_, e_ in ((None, None), (2, 4), (1, None), (None, 3)) for off in (0, 1) for f in ('ignore', 'raise')]
+    add('indexed-lhs', [{'lhs': 'H', 'off': 1, 'rhs': B('sub', B('add', V('H'), V('YD')), B('mul', D('0.5'), V('H')))},
+                        {'lhs': 'R', 'off': -1, 'rhs': B('add', B('mul', D('0.5'), V('R')), V('X'))},
+                        {'lhs': 'S', 'rhs': B('add', B('mul', D('0.25'), V('S')), B('add', V('H', 1), V('R', -1)))}],
+        calls=ix_calls, data='dyadic', n=7)
     # lags and leads in one model; every explicit period including the infeasible ones
     ll_calls = [{'call': 'evaluate', 't': t} for t in range(-9, 9)]
     ll_calls += [{'call': 'solve_t', 't': t, 'opts': mkopts(0, 30, 1e-9, 0, 'ignore', 'raise')} for t in range(-8, 8)]
@@ -941,7 +970,7 @@ def process_program(job):
                                                    obs_str(Po), None if verdict is None else verdict[0]))
             nontrivial = Fo['tag'] not in ('ValueError', 'KeyError') and verdict != ('skip', 'non-finite')
             out['cases'].append((json.dumps([prog['script'], data, call], sort_keys=True), nontrivial))
-            in_span = call['call'] != 'solve_t' or -n <= call['t'] < n   # the models assume -n <= t < n for solve_t
+            in_span = call['call'] not in ('solve_t', 'solve_period') or -n <= call['t'] < n   # the models assume -n <= t < n
             if model_ok and in_span and all_finite(Po) and all_finite(Fo):
                 periods = call_periods(call, n, lags, leads)
                 p_tie = (M1_HAS_FEASIBILITY_TEST or call['call'] == 'evaluate' or
